@@ -8,24 +8,63 @@ from .transports import Watchdog
 L = env.lib()
 
 # ----------------------------------------------------------------------------- store observer (no source change)
-OBS = {"puts": 0, "dropped_clse": [], "active": False}
-_orig_put = L.hidden_helpers._AdbPacketStore.put
+OBS = {"puts": 0, "dropped_clse": [], "dropped_clse_with_entry": [], "active": False, "entries": {}}
+_Store = L.hidden_helpers._AdbPacketStore
+_orig_put = _Store.put
+_orig_get = _Store.get
+_orig_clear = _Store.clear
+_orig_clear_all = _Store.clear_all
+
+
+def _entries(store):
+    return OBS["entries"].setdefault(id(store), set())
 
 
 def _observed_put(self, arg0, arg1, cmd, data):
     _orig_put(self, arg0, arg1, cmd, data)
     if OBS["active"]:
         OBS["puts"] += 1
+        ent = _entries(self)
         if cmd == L.constants.CLSE:
             try:
                 kept = (arg0, arg1) in self
             except Exception:  # noqa
                 kept = True
             if not kept:
-                OBS["dropped_clse"].append((arg0, arg1))
+                # K1 is precisely: the CLSE of a stream for which NOTHING is parked (no entry).  A CLSE dropped although an earlier packet
+                # of that pair was parked and never cleared is a different defect.
+                (OBS["dropped_clse_with_entry"] if (arg0, arg1) in ent else OBS["dropped_clse"]).append((arg0, arg1))
+        else:
+            ent.add((arg0, arg1))
 
 
-L.hidden_helpers._AdbPacketStore.put = _observed_put
+def _observed_get(self, arg0, arg1):
+    r = _orig_get(self, arg0, arg1)
+    if OBS["active"] and r[0] == L.constants.CLSE:
+        _entries(self).discard((r[1], r[2]))
+    return r
+
+
+def _observed_clear(self, arg0, arg1):
+    if OBS["active"]:
+        _entries(self).discard((arg0, arg1))
+    return _orig_clear(self, arg0, arg1)
+
+
+def _observed_clear_all(self):
+    if OBS["active"]:
+        _entries(self).clear()
+    return _orig_clear_all(self)
+
+
+_Store.put = _observed_put
+_Store.get = _observed_get
+_Store.clear = _observed_clear
+_Store.clear_all = _observed_clear_all
+
+
+def obs_reset():
+    OBS.update(puts=0, dropped_clse=[], dropped_clse_with_entry=[], active=True, entries={})
 
 
 class ConcOutcome(object):
@@ -38,7 +77,7 @@ def trace_targets(level):
         return set()
     mgr = L.adb_device._AdbIOManager
     store = L.hidden_helpers._AdbPacketStore
-    t = {mgr.read.__code__, mgr.send.__code__, _orig_put.__code__, store.get.__code__, store.find.__code__, store.clear.__code__, store.find_allow_zeros.__code__}
+    t = {mgr.read.__code__, mgr.send.__code__, _orig_put.__code__, _orig_get.__code__, store.find.__code__, _orig_clear.__code__, store.find_allow_zeros.__code__}
     if level == "fs":
         d = L.adb_device.AdbDevice
         return {d._filesync_send.__code__, d._filesync_flush.__code__, d._push.__code__, d._pull.__code__, d._filesync_read_buffered.__code__, d._filesync_read.__code__}
@@ -53,7 +92,7 @@ def run_concurrent(scn, sched_tape=(), plan=None, trace=None, trace_opcodes=Fals
     """scn: like a runner scenario; scn["ops"] run concurrently after a (main-thread) connect."""
     api = scn.get("api", "sync")
     holder = [None]
-    OBS.update(puts=0, dropped_clse=[], active=True)
+    obs_reset()
     res = ConcOutcome()
     try:
         if api == "sync":
@@ -105,6 +144,7 @@ def run_concurrent(scn, sched_tape=(), plan=None, trace=None, trace_opcodes=Fals
     res.excs = [e for _, e in workers]
     res.puts = OBS["puts"]
     res.dropped_clse = list(OBS["dropped_clse"])
+    res.dropped_clse_with_entry = list(OBS["dropped_clse_with_entry"])
     res.deadlock = sched.deadlock
     res.budget_exhausted = sched.budget_exhausted
     res.steps = sched.step
